@@ -408,7 +408,7 @@ func c10Check(c *fw.Ctx, L, R *c10Side, outText, via string, payload interface{}
 			case !sawOriginal:
 				say("lost-reference", "%s reference %s %s -> %s (@%s@) has no counterpart in output record %s", sname, ref.from, ref.tag, ref.to, ref.ptr, from.Pointer())
 			case resolvedNothing && target != nil && target.Pointer() != ref.ptr:
-				say("dangling:ref-to-pointer-of-record-merged-into-a-different-pointer", "%s reference %s %s @%s@ dangles: the record it meant (%s) is now @%s@ and no pointer was rewritten", sname, ref.from, ref.tag, ref.ptr, ref.to, target.Pointer())
+				say("dangling:ref-to-pointer-of-record-merged-into-a-different-pointer:"+sname+"-reference", "%s reference %s %s @%s@ dangles: the record it meant (%s) is now @%s@ and no pointer was rewritten", sname, ref.from, ref.tag, ref.ptr, ref.to, target.Pointer())
 			case resolvedNothing:
 				say("dangling:other", "%s reference %s %s @%s@ resolves to nothing in the output", sname, ref.from, ref.tag, ref.ptr)
 			case resolvedOther && (ptrCount[ref.ptr] > 1 || (L.ptr[ref.ptr] != "" && R.ptr[ref.ptr] != "")):
